@@ -87,12 +87,20 @@ INHERIT_B = dict(sched.PLAIN, n=4, fixed_parent=[-1, -1, -1, 2], link_pairs=[(0,
 SUMMARY_PRED = dict(sched.PLAIN, n=4, fixed_parent=[-1, 0, 0, -1], link_pairs=[(0, 3), (1, 2)], resources=['r', 'q'], E=8, scenarios=[(0, -1)])  # S{a, b}, x
 
 
+# two levels of inherited prerequisites reached through links (roots X, S{L}, Q{P}, R)
+NESTED = dict(sched.PLAIN, n=6, fixed_parent=[-1, -1, 1, -1, 3, -1], link_pairs=[(0, 2), (1, 4), (3, 5)], E=4, scenarios=[(0, -1)])
+
+
 def harnesses(tier):
     hs = sched.standard_harnesses(h, tier, backward=False)
     for x in hs:
         if 'profiles' in x['cfg']:
-            x['cfg'] = dict(x['cfg'], profiles=dict(x['cfg']['profiles'], **{'n4-inherited': INHERIT, 'n4-inherited-b': INHERIT_B, 'n4-summary-pred': SUMMARY_PRED}))
+            x['cfg'] = dict(x['cfg'], profiles=dict(x['cfg']['profiles'], **{'n4-inherited': INHERIT, 'n4-inherited-b': INHERIT_B, 'n4-summary-pred': SUMMARY_PRED, 'n6-nested': NESTED}))
     if tier != 'quick':
+        # two levels of inherited prerequisites reached through links (roots X, S{L}, Q{P}, R)
+        hs.append({'name': 'forward-n6-nested-inheritance', 'fn': h,
+                   'cfg': dict(sched.PLAIN, n=6, fixed_parent=[-1, -1, 1, -1, 3, -1], link_pairs=[(0, 2), (1, 4), (3, 5)], E=4,
+                               scenarios=[(0, -1)])})
         hs.append({'name': 'forward-n4-inherited-b', 'fn': h,
                    'cfg': dict(sched.PLAIN, n=4, fixed_parent=[-1, 0, -1, -1], E=8, scenarios=[(0, -1), (4, 0)])})
     return hs
